@@ -25,7 +25,7 @@ ASSUMPTIONS = [
 
 def run_shard(ctx):
     M = make_machine(ctx, "C02", corpus.table_specs(), warm_weight=3)
-    ctx.run_machine(M, ctx.budget(16 * 55, 16 * 300), 25 if not ctx.thorough else 50, replay=replay_raise)
+    ctx.run_machine(M, ctx.budget(16 * 55, 16 * 160), 25 if not ctx.thorough else 50, replay=replay_raise)
 
 
 def replay_raise(case, ctx):
